@@ -328,6 +328,17 @@ func GenConc(g *vh.Gen) {
 			}
 		}
 	}
+	// two OVERLAPPING purges of one mailbox with a delivery to it between them: purge 1 is parked after
+	// j steps (mem.wm.lock, mem.purge.swapped, mem.enfremove …), the delivery and purge 2 run to their
+	// ends, purge 1 resumes — every message must still get exactly one deleted event
+	for _, maxkb := range []int{0, 1} {
+		for _, pre := range [][]string{{"a0:300"}, {"a0:300", "a0:200", "a0:250"}} {
+			for j := 0; j <= g.N(6, 9); j++ {
+				emit(0, maxkb, pre, []string{"p0", "a0:300", "p0"}, rep('0', j)+rep('1', 12)+rep('2', 12)+rep('0', 12))
+				emit(0, maxkb, pre, []string{"p0", "a0:300", "p0", "a0:200"}, rep('0', j)+rep('1', 12)+rep('2', j)+rep('3', 12)+rep('0', 12)+rep('2', 12))
+			}
+		}
+	}
 	for i := 0; i < g.N(60, 3000); i++ {
 		n := 2 + g.Intn(2)
 		prefix := []string{}
